@@ -164,9 +164,27 @@ def judge(case, part):
             if not ok:
                 break
     else:
-        for run in case["runs"]:
-            execute(cid, config, decls, run)
-            part.transitions += 1 + len(run["table"])
+        if case.get("up_front"):
+            # every Reader is constructed before the first one is consumed: each data set still gets its own reset, rows, verdict, clean-up
+            import cutplace
+
+            errors = harness.modules()["errors"]
+            readers = [cutplace.Reader(cid, harness.NamedStringIO(data_text(config, decls, run["table"]), "data.txt"), on_error=run["mode"], validate_until=run.get("limit")) for run in case["runs"]]
+            for reader, run in zip(readers, case["runs"]):
+                try:
+                    for _ in reader.rows():
+                        pass
+                except errors.DataError:
+                    pass
+                try:
+                    reader.close()
+                except errors.CutplaceError:
+                    pass
+                part.transitions += 1 + len(run["table"])
+        else:
+            for run in case["runs"]:
+                execute(cid, config, decls, run)
+                part.transitions += 1 + len(run["table"])
         recorded = [list(entry) for entry in recording.LOG]
         runs = [model_run(config, run) for run in case["runs"]]
         ok, detail = protocol.matches(recorded, decls, config["checks"], config["header"], runs)
@@ -175,7 +193,7 @@ def judge(case, part):
         part.nontrivial += 1
     part.outcome("log-length-%d" % min(len(recorded), 12))
     if not ok:
-        kinds = "+".join(run["kind"] + (":" + run["mode"] if run["kind"].startswith("reader") else "") + ("@other-cid" if "config" in run else "") for run in case["runs"])
+        kinds = ("constructed-up-front:" if case.get("up_front") else "") + "+".join(run["kind"] + (":" + run["mode"] if run["kind"].startswith("reader") else "") + ("@other-cid" if "config" in run else "") for run in case["runs"])
         part.fail(tag % ("call-sequence-differs|" + kinds), case, detail, recorded[:40])
     # state of the last run as far as the implementation showed it: rows fed, value hooks and row checks performed
     last = case["runs"][-1]
@@ -271,6 +289,14 @@ def explore(item):
             for table_a in short_tables[:3]:
                 for table_b in short_tables[:3]:
                     judge({"config": config, "runs": [dict(first, table=table_a), dict(second, table=table_b)]}, part)
+    # two or three Readers constructed up front on one CID, consumed one after the other
+    readers_only = [v for v in seconds if v["kind"] == "reader"]
+    for first in readers_only:
+        for second in readers_only:
+            for table_a in short_tables[:3]:
+                for table_b in short_tables[:3]:
+                    judge({"config": config, "up_front": True, "runs": [dict(first, table=table_a), dict(second, table=table_b)]}, part)
+        judge({"config": config, "up_front": True, "runs": [dict(first, table=short_tables[1]), dict(first, table=short_tables[2]), dict(first, table=short_tables[1])]}, part)
     # runs on two different CIDs in one process (the other CID differs in its allowed characters, empty flags or checks)
     others = [dict(config, allowed="wide"), dict(config, allowed=False), dict(config, fields=[(not e, s) for e, s in config["fields"]]), dict(config, checks=list(reversed(config["checks"])) + ["ok"])]
     cross_tables = [header_rows + [pool[i] for i in indexes] for indexes in ([], list(range(len(pool))), list(range(len(pool) - 1, -1, -1)))]
